@@ -399,6 +399,9 @@ def run_property(prop: str, tier: str = "quick", replay: Optional[str] = None, t
             "second_opinion": second,
             "lean": lean,
             "assumed_contracts": assumed_contracts,
+            "contract_overrides": ["%s: %s (%s) replaced by %s (%s)" % (q_, m1_, "verified" if v1_ else "assumed", m2_,
+                                                                         "verified" if v2_ else "assumed")
+                                   for (q_, m1_, m2_, v1_, v2_) in getattr(REG, "overrides", [])],
             "inlined_accessors": sorted(REG.inline.keys()) if getattr(mod, "REPORT_INLINE", True) else [],
             "assumed_library_contracts": eng.lib_assumed(),
             "prelude_axioms": [{"name": n, "justification": w} for (n, w, a) in eng.prelude_named
